@@ -141,6 +141,16 @@ func WriteReplay(prop string, v interface{}) {
 	if err != nil {
 		b = []byte(fmt.Sprintf("{\"property\":%q,\"marshal_error\":%q}", prop, err.Error()))
 	}
+	if Verbose() {
+		// the logging verbosity of the process is part of the case
+		var m map[string]json.RawMessage
+		if json.Unmarshal(b, &m) == nil && m != nil {
+			m["verboseLogging"] = json.RawMessage("true")
+			if bb, err := json.MarshalIndent(m, "", " "); err == nil {
+				b = bb
+			}
+		}
+	}
 	os.WriteFile(path, b, 0o644)
 }
 
@@ -223,6 +233,30 @@ func StartWatchdog(prop func() string) {
 }
 
 // Quiet silences grpclog: some defects log an error per loop iteration forever.
+// The verbosity is an input dimension: with Verbose() the logger answers true to every V(level) query, so
+// code behind "if logger.V(...)" runs (its output is still discarded). The driver alternates it between the
+// shards of a part; a replay file remembers it.
 func Quiet() {
+	if Verbose() {
+		grpclog.SetLoggerV2(grpclog.NewLoggerV2WithVerbosity(io.Discard, io.Discard, io.Discard, 1000))
+		return
+	}
 	grpclog.SetLoggerV2(grpclog.NewLoggerV2(io.Discard, io.Discard, io.Discard))
+}
+
+var verboseOnce sync.Once
+var verbose bool
+
+// Verbose reports whether this process runs the library with all verbosity levels enabled.
+func Verbose() bool {
+	verboseOnce.Do(func() {
+		verbose = os.Getenv("VERIF_VERBOSE") == "1"
+		if p := ReplayIn(); p != "" {
+			var m map[string]json.RawMessage
+			if Load(p, &m) == nil {
+				verbose = string(m["verboseLogging"]) == "true"
+			}
+		}
+	})
+	return verbose
 }
